@@ -669,40 +669,31 @@ func (c *Ctx) handlerTable() map[string]*types.Func {
 	return out
 }
 
-// caseSetOf reads a method of the form `switch recv { case A, B: return true }; return false`
-// and returns the constant names of the true arms.
+// caseSetOf: the declared constants of the enumeration for which the one-operand boolean
+// predicate answers true, by the per-kind evaluator (switch, comparison, table membership,
+// calls of other predicates). nil when the answer is unknown for some constant.
 func (c *Ctx) caseSetOf(rel, method string) map[string]bool {
 	f := c.Func(rel, method)
 	fd := c.P.Decl(f)
-	if fd == nil {
+	if fd == nil || fd.Recv == nil || len(fd.Recv.List) != 1 {
 		return nil
 	}
 	pk := c.P.PkgOfDecl(fd)
+	enumT, ok := pk.TypesInfo.TypeOf(fd.Recv.List[0].Type).(*types.Named)
+	if !ok {
+		return nil
+	}
+	ev := &kindEval{c: c, enumT: enumT, tables: map[*types.Var]map[string]bool{}}
 	out := map[string]bool{}
-	ast.Inspect(fd.Body, func(n ast.Node) bool {
-		cc, ok := n.(*ast.CaseClause)
-		if !ok {
-			return true
+	for _, k := range EnumConsts(pk, enumT) {
+		switch ev.evalPredFor(fd, k.Val()) {
+		case triTrue:
+			out[k.Name()] = true
+		case triFalse:
+		default:
+			return nil
 		}
-		isTrue := false
-		for _, st := range cc.Body {
-			if r, ok := st.(*ast.ReturnStmt); ok && len(r.Results) == 1 {
-				if id, ok := r.Results[0].(*ast.Ident); ok && id.Name == "true" {
-					isTrue = true
-				}
-			}
-		}
-		if isTrue {
-			for _, e := range cc.List {
-				if id, ok := ast.Unparen(e).(*ast.Ident); ok {
-					if cst, ok := pk.TypesInfo.ObjectOf(id).(*types.Const); ok {
-						out[cst.Name()] = true
-					}
-				}
-			}
-		}
-		return true
-	})
+	}
 	return out
 }
 
